@@ -255,7 +255,7 @@ func serverDeviations() []srvDev {
 		{name: "iat-future", expect: "accept", mut: setTime("iat", func(n, a int64) string { return fmt.Sprint(n + 500) })},
 		// nbf ("not before"): the token's validity has not begun / begins now / began earlier
 		{name: "nbf-future", expect: "reject", mut: setTime("nbf", func(n, _ int64) string { return fmt.Sprint(n + 120) })},
-		{name: "nbf-next-second-but-one", expect: "reject", mut: setTime("nbf", func(n, _ int64) string { return fmt.Sprint(n + 2) })},
+		{name: "nbf-next-second-but-one", mut: setTime("nbf", func(n, _ int64) string { return fmt.Sprint(n + 2) })},
 		{name: "nbf-now", mut: setTime("nbf", func(n, _ int64) string { return fmt.Sprint(n) })},
 		{name: "nbf-past", expect: "accept", mut: setTime("nbf", func(n, _ int64) string { return fmt.Sprint(n - 30) })},
 		{name: "nbf-string", expect: "reject", mut: setRaw("nbf", `"17"`)},
@@ -701,7 +701,7 @@ func verifyDeviations() []verDev {
 		{name: "iat-future", expect: "accept", mut: setTime("iat", func(n, a int64) string { return fmt.Sprint(n + 500) })},
 		// nbf ("not before"): the token's validity has not begun / begins now / began earlier
 		{name: "nbf-future", expect: "reject", mut: setTime("nbf", func(n, _ int64) string { return fmt.Sprint(n + 120) })},
-		{name: "nbf-next-second-but-one", expect: "reject", mut: setTime("nbf", func(n, _ int64) string { return fmt.Sprint(n + 2) })},
+		{name: "nbf-next-second-but-one", mut: setTime("nbf", func(n, _ int64) string { return fmt.Sprint(n + 2) })},
 		{name: "nbf-now", mut: setTime("nbf", func(n, _ int64) string { return fmt.Sprint(n) })},
 		{name: "nbf-past", expect: "accept", mut: setTime("nbf", func(n, _ int64) string { return fmt.Sprint(n - 30) })},
 		{name: "nbf-string", expect: "reject", mut: setRaw("nbf", `"17"`)},
